@@ -9,6 +9,9 @@ Decided (claimed in part):
  R3 skip wiring: before the next header is read the unread remainder of the current
     member is skipped; curr_file_remaining is initialised from compressed_length and
     decreased by exactly the number of compressed bytes handed out.
+R4 the basic reader's compressed stream is opened only while the current entry is
+    NORMAL; decoder slots are written only by open/close/new; close_decoder nulls both;
+    next_file closes the decoder before any change of entry.
 Not decided: the sequence semantics of re-presented directories / deferred symlinks
 under the three policies (a property of call histories).
 """
@@ -43,7 +46,8 @@ def run(tier, seed):
                  "table is written through any pointer, and lib/ calls no non-reentrant libc function - so two readers share no "
                  "mutable state, interleaved or on different threads; (R2) the end state is sticky; (R3) the unread remainder of a "
                  "member is skipped before the next header is read and the remaining-bytes counter is decreased by exactly the "
-                 "compressed bytes handed out. Not decided: the order in which directories and deferred symlinks are re-presented "
+                 "compressed bytes handed out; (R4) the member's compressed stream is opened only while the current entry is the basic "
+                 "reader's own member and no decoder survives a change of entry. Not decided: the order in which directories and deferred symlinks are re-presented "
                  "(a property of call histories).")
     with Context(tier) as ctx:
         from .. import selfcheck
@@ -249,4 +253,75 @@ def run(tier, seed):
                             rep.check(rid, f is not None, "bytes = buf_len only if buf_len <= remaining", rc.file, None, function=rc.cname, obj="min")
                         else:
                             rep.check(rid, M.match(rem, s, {}) is not None, "otherwise bytes = remaining", rc.file, describe(rc, s), function=rc.cname, obj="min2")
+
+        # ---- R4: member bytes are consumed only for the NORMAL current entry -------------------------------
+        rid = rep.rule("R4", "the compressed stream of the basic reader is opened only while the current entry is the basic reader's own member (NORMAL), "
+                             "and a decoder never survives a change of entry", 6)
+        NORMAL = mod.enums.get("CURR_FILE_NORMAL")
+        if NORMAL is None:
+            rep.broken(rid, "enumerator CURR_FILE_NORMAL not found")
+        rd_fns = [f for f in mod.defined() if f.file.endswith("lha_reader.c")]
+        opens = [c for f in rd_fns for c in f.insts() if c.op == "call" and mod.callee_cname(c) in ("lha_basic_reader_decode", "lha_basic_reader_read_compressed")]
+        if not opens:
+            rep.broken(rid, "no call to lha_basic_reader_decode in lha_reader.c")
+        def entry_kind_known(fn, inst, depth=0):
+            """'curr_file_type == NORMAL' is a fact at inst, or (static helper) at every call site of the enclosing function; the state is not
+            written in between because only next_file and the constructor write it (R2) and neither reaches these sites"""
+            pk = [k for k, pp in enumerate(fn.params) if mod.struct_cname(pp.ty) == RD]
+            if not pk:
+                return False, "enclosing function %s has no LHAReader parameter" % fn.cname
+            F, M = ctx.facts(fn), Matcher(fn)
+            pat = ("eq", ("load", ("field", RD, "curr_file_type", ("param", pk[0]))), NORMAL)
+            f, _ = M.find_fact(pat, F.at_inst(inst))
+            if f is not None:
+                return True, "%s: %s" % (fn.cname, describe_fact(fn, f))
+            callers = [(g, c2) for g in mod.defined() for c2 in g.insts() if c2.op == "call" and mod.callee_cname(c2) == fn.cname]
+            if depth >= 2 or not callers or not fn.internal:
+                return False, "site in %s is reachable without the fact curr_file_type == CURR_FILE_NORMAL; facts there: %s" % (
+                    fn.cname, sorted({describe_fact(fn, x) for x in F.at_inst(inst)})[:8])
+            why = []
+            for g, c2 in callers:
+                ok2, w = entry_kind_known(g, c2, depth + 1)
+                if not ok2:
+                    return False, w
+                why.append(w)
+            return True, "; ".join(why)
+        for c in opens:
+            if NORMAL is None:
+                break
+            ok, why = entry_kind_known(c.fn, c)
+            rep.check(rid, ok, "%s: call %s only while reader->curr_file_type == CURR_FILE_NORMAL" % (c.fn.cname, mod.callee_cname(c)), c.where(), why,
+                      function=c.fn.cname, obj="open")
+        # decoder slots: written only by open_decoder / close_decoder / constructor
+        for fld in ("decoder", "inner_decoder"):
+            writers = {s.fn.cname for f in mod.defined() for s in stores_to_field(mod, RD, fld, [f])}
+            rep.check(rid, writers <= {"open_decoder", "close_decoder", "lha_reader_new"}, "reader->%s is written only by open_decoder, close_decoder and the constructor" % fld,
+                      "lib/lha_reader.c", "writers %s" % sorted(writers), function=fld, obj="writers")
+        cd = rep.need(rid, mod.fn("close_decoder"), "function close_decoder")
+        if cd:
+            Fc = ctx.facts(cd)
+            Mc = Matcher(cd)
+            # on every return both slots are NULL: each return edge carries 'slot == NULL' or is dominated by a store of NULL with no later non-NULL store
+            for fld in ("decoder", "inner_decoder"):
+                slot = ("load", ("field", RD, fld, ("param", 0)))
+                nulls = [s for s in stores_to_field(mod, RD, fld, [cd]) if is_const(s.ops[0]) and const_val(s.ops[0]) == 0]
+                nonnull = [s for s in stores_to_field(mod, RD, fld, [cd]) if not (is_const(s.ops[0]) and const_val(s.ops[0]) == 0)]
+                cut = Fc.edges_with_fact(("eq", slot, 0))
+                for s in nulls:
+                    cut |= {(s.block.id, t) for t in s.block.succs}
+                ok = not nonnull
+                for r in rets(cd):
+                    if any(s.block.id == r.block.id for s in nulls):
+                        continue
+                    if Fc.reaches_avoiding(0, r.block.id, cut):
+                        ok = False
+                rep.check(rid, ok, "close_decoder leaves reader->%s == NULL on every path" % fld, cd.file, None, function=cd.cname, obj="null-" + fld)
+        nf = mod.fn("lha_reader_next_file")
+        if nf and cd:
+            cl = list(nf.calls("close_decoder"))
+            eff = [i for i in nf.insts() if (i.op == "store" and i in stores_to_field(mod, RD, "curr_file_type", [nf]) + stores_to_field(mod, RD, "curr_file", [nf]))
+                   or (i.op == "call" and mod.callee_cname(i) == "lha_basic_reader_next_file")]
+            ok = bool(cl) and all(any(nf.dominates(c.block.id, e.block.id) and (c.block.id != e.block.id or c.idx < e.idx) for c in cl) for e in eff)
+            rep.check(rid, ok and bool(eff), "lha_reader_next_file closes the decoder before it advances the input or changes the current entry (%d effect sites)" % len(eff),
+                      nf.file, None, function=nf.cname, obj="close-first")
     return rep.finish(seed)
